@@ -4,6 +4,7 @@ import (
 	"fmt"
 
 	"github.com/cockroachdb/errors"
+	"github.com/cockroachdb/errors/barriers"
 	"verifh/sym"
 	"verifh/wire"
 )
@@ -37,7 +38,20 @@ func H_C12_SafeRetained(v *sym.V) {
 	b := build(v, g, "e")
 	e := b.Err
 	tag := b.Kinds[0].String()
-	switch v.Choice("stage", 4) {
+	switch v.Choice("stage", 6) {
+	case 4:
+		// the carrier is the secondary error of a secondary error
+		e = errors.CombineErrors(errors.New("p1"), errors.CombineErrors(errors.New("p2"), e))
+		if v.Choice("nested-hop", 2) == 1 {
+			e = wire.Hop(e)
+		}
+		tag += "/nested-secondary"
+	case 5:
+		// a barrier message built from a format with a safe argument
+		tok := g.StrS("fmt.tok")
+		e = barriers.HandledWithMessagef(e, "handled %s", errors.Safe(tok))
+		b.Safe = append(b.Safe, tok)
+		tag += "/handledmsgf"
 	case 1:
 		e = wire.Hop(e)
 		tag += "/hop"
